@@ -244,6 +244,22 @@ def battery(quick=True):
         for closed in ("left", "right"):
             attempt(f"auto+crosscorrelate[redshifts on the bin edges, closed={closed}]", lambda closed=closed: on_edges(closed))
 
+        # two patches that cover the whole sky (hemispheres around antipodal centres) and scales up to 100 degrees: patch radius +
+        # patch radius + largest angle exceeds pi, where chord lengths stop growing with the angle
+        def hemispheres():
+            L = [(20 * deg, 5 * deg), (200 * deg, -5 * deg)]
+            data = patched(L, 30, 0.5 * np.pi)
+            rand = patched(L, 40, 0.5 * np.pi)
+            cfg = yaw.Configuration.create(rmin=[600.0, 3000.0], rmax=[6000.0, 9000.0], unit="arcmin", zmin=0.05, zmax=1.2, num_bins=2)
+            d = make_cat(data)
+            r = make_cat(rand, centres=d)
+            res = run_auto(cfg, d, r)
+            if res is not True:
+                return res
+            unk = make_cat(patched(L, 30, 0.5 * np.pi, weights=False).drop(columns="z"), centres=d)
+            return run_cross(cfg, d, unk, r, None)
+        attempt("auto+crosscorrelate[two hemispheres, scales up to 150 degrees]", hemispheres)
+
         # given centres with the objects of a patch sitting off-centre (a clump at the border): the stored radius must be measured
         # around the stored (given) centre, otherwise the neighbouring patch is pruned although it holds pairs
         def off_centre():
